@@ -32,7 +32,8 @@ St0(cfg) == [cfg |-> cfg, claim |-> Absent, lastClaim |-> Absent, nodes |-> <<>>
              lostPids |-> {},                        \* ghost: created pids that were not persisted when the process restarted
              queue |-> <<>>,                         \* pod name -> [uid, dl] as projected after the last reconcile
              qU |-> <<>>,                            \* ghost: pod uid -> earliest deadline it was queued under (this process)
-             ctl |-> "-", obj |-> "-",               \* controller whose reconcile is running, and its object
+             ctl |-> "-", obj |-> "-",               \* controller whose (outermost) reconcile is running, and its object
+             depth |-> 0,                            \* reconciles in flight (an eviction-queue reconcile may run inside a mid-reconcile step)
              view |-> Absent,                        \* the informer copy an eviction-queue reconcile was handed
              \* what the running node-termination reconcile read: pods / volume attachments of the node at its last
              \* list call (only known when reads are logged; otherwise the store at the instant of the write is used,
@@ -173,19 +174,23 @@ TProv ==
 
 NoObs == [valid |-> FALSE, set |-> {}]
 TBegin == /\ Ev.e = "Begin" /\ UNCHANGED viol
-          /\ st' = [st EXCEPT !.ctl = Ev.controller, !.obj = Ev.object, !.view = Ev.view, !.obsP = NoObs, !.obsV = NoObs]
+          /\ st' = IF st.depth = 0
+                   THEN [st EXCEPT !.ctl = Ev.controller, !.obj = Ev.object, !.view = Ev.view, !.obsP = NoObs, !.obsV = NoObs, !.depth = 1]
+                   ELSE [st EXCEPT !.view = Ev.view, !.depth = @ + 1]
 \* a logged read of the node termination controller: remember what it saw
 TRead == /\ Ev.e = "Read" /\ UNCHANGED viol
          /\ LET mine == Ev.actor = "node.termination" /\ Ev.verb = "list" /\ Ev.err = "-" IN
             st' = [st EXCEPT !.obsP = IF mine /\ Ev.kind = "Pod" THEN [valid |-> TRUE, set |-> PodsOn(st.obj)] ELSE @,
                              !.obsV = IF mine /\ Ev.kind = "VolumeAttachment" THEN [valid |-> TRUE, set |-> VasOn(st.obj)] ELSE @]
-TEnd == /\ Ev.e = "End" /\ UNCHANGED st
+TEnd == /\ Ev.e = "End" /\ st' = [st EXCEPT !.depth = IF @ > 0 THEN @ - 1 ELSE 0]
         /\ viol' = viol \o Chk(~Ev.panic, IF Ev.controller = "eviction-queue" THEN "Inv_C10_NoPanic" ELSE "Inv_C09_NoPanic", Ev.controller)
 TMem ==
     /\ Ev.e = "Mem"
     /\ LET new == QFun(Ev.queue) IN
        /\ viol' = viol \o QueueChecks(st.queue, new)
-       /\ st' = [st EXCEPT !.queue = new, !.qU = QU(st.queue, new), !.ctl = "-", !.view = Absent, !.obsP = NoObs, !.obsV = NoObs]
+       /\ st' = IF st.depth = 0
+                THEN [st EXCEPT !.queue = new, !.qU = QU(st.queue, new), !.ctl = "-", !.view = Absent, !.obsP = NoObs, !.obsV = NoObs]
+                ELSE [st EXCEPT !.queue = new, !.qU = QU(st.queue, new), !.view = Absent]
 \* a restart loses the in-memory eviction queue (and the lifecycle launch cache)
 TRestart == /\ Ev.e = "Restart"
             /\ st' = [st EXCEPT !.queue = <<>>, !.qU = <<>>,
